@@ -529,15 +529,6 @@ func gen(seed uint64, tier string) Scenario {
 			if r.Bool(0.5) {
 				op.Path += "/" + genSeg(r)
 			}
-			if i == 0 && sc.Carrier == "http" {
-				// the first URL also becomes the request target of the HTTP tunnel's GET / POST:
-				// establishing the carrier is not part of C04 (see f.Excluded), so it gets a
-				// path without escapes or sub-delimiters
-				op.Path = "/" + genToken(r, pathChars, 1, 12)
-				if r.Bool(0.5) {
-					op.Path += "/" + genToken(r, pathChars, 1, 12)
-				}
-			}
 			if r.Bool(0.5) {
 				op.Path += "?" + genQuery(r)
 			}
@@ -547,6 +538,9 @@ func gen(seed uint64, tier string) Scenario {
 			e := genElem(r, 1)
 			e.K, e.M, e.U, e.P, e.Ch, e.Fill = "res", "", "", 0, 0, 0
 			e.SC = r.Pick(400, 403, 404, 451, 454, 500, 503, 551, r.Range(400, 599))
+			if e.SC == 401 { // would start the client's authentication exchange (C10), not a framing matter
+				e.SC = 402
+			}
 			e.SM = genMsg(r)
 			e.NS = true
 			if e.MV == 0 {
@@ -798,7 +792,6 @@ func init() {
 		"methods whose first two letters are not one of AN DE GE OP PA PL RE SE TE: conn.Conn.Read does not classify them as requests (unknown tokens with such a prefix are generated)",
 		"status codes outside 1..999, header keys/values and status messages with CR or LF, header keys that are not RFC tokens",
 		"wire byte flips in the client-to-server WebSocket direction (gorilla masks with math/rand: the outcome is not a function of the scenario); that direction gets truncation, message mutation and garbage",
-		"establishing the carrier in the end-to-end configuration: the first URL of a run has a path without escapes (clientTunnelHTTPRequestTarget puts the decoded path into the HTTP request line, so a first URL with %20 or %25 in its path makes the tunnel handshake fail; reported separately, not a framing matter)",
 		"requests built with a nil Header and a non-empty Body (Marshal writes Content-Length into the caller's map and panics on a nil map: caller error, not framing)",
 	}
 	f.Rule = "scenario = carrier (direct | HTTP tunnel | WebSocket) x mode. roundtrip: seeded element sequences in both directions at once (1..30 elements per direction: requests with any of the 10 methods or unknown tokens, URLs with IPv4/IPv6/host names, ports, user-info, escapes, queries, '*'; responses with any 1..999 status and default or arbitrary message; 0..255 header lines with 1..3 values per key, standard keys in arbitrary case, keys/values up to the limits, empty values; bodies 0..131072; frames 0..65535 bytes on channels 0..255; optional CR/LF/SP filler in front of an element), one Write per element, several elements per Write or several Writes per element (= base64 blocks / WebSocket messages that end inside elements), scheduler chunk mode 0..3 (1-byte reads for the small profiles); three size profiles (tiny / mixed / one element at a documented bound). truncate: FIN or RST at a seeded offset class (request line, CRLF, frame header, body, element boundary +-1, last byte, uniform). corrupt: 1..3 wire byte flips, grammar-level message mutations (peers.Mutator) or pure garbage. overlimit: an element beyond one documented limit (header count, key, value, URL, method, body length, huge Content-Length) after 0..2 good ones, with more bytes following. e2e: real Client and Server over the same three carriers, OPTIONS / DESCRIBE calls with seeded URLs, User-Agent and handler responses (status, headers, body). non-trivial = at least one element was compared (roundtrip, e2e), the fault fired (truncate, corrupt) or the over-limit element was refused after the memory checks; distinct = distinct canonical event log (scenario hash + per-read outcomes)"
